@@ -7,7 +7,7 @@ git -C /repo worktree add --detach "$WT" HEAD >/dev/null 2>&1 || exit 3
 if ! git -C "$WT" apply -3 "$PATCH" 2>/dev/null && ! git -C "$WT" apply "$PATCH"; then echo "PATCH DOES NOT APPLY"; git -C /repo worktree remove --force "$WT"; exit 3; fi
 rc=0
 for id in ${IDS//,/ }; do
-  VERIF_REPO="$WT" python3 /verif/verif.py check "$id" --tier "$TIER" | grep -E "^(check|VIOLATION|KNOWN)" | cut -c1-400 | head -${MAXLINES:-12}
+  VERIF_REPO="$WT" python3 /verif/verif.py check "$id" --tier "$TIER" | grep -E "^(check|VIOLATION)" | cut -c1-400 | head -${MAXLINES:-12}
   [ "${PIPESTATUS[0]}" != 0 ] && rc=1
 done
 git -C /repo worktree remove --force "$WT"
